@@ -1,7 +1,6 @@
 /-
 C14 helper lemmas, part 8: `Instr.Canon` holds for every instruction object `instantiate` builds from
-a numeric-operand syntax tree the grammar can return; and the counterexample to the listing round
-trip for branch/jump targets written as `label+odd offset`.
+a numeric-operand syntax tree the grammar can return. (The label forms are in `C14Built.lean`.)
 -/
 import ArchSim.Lemmas.C14Load
 
@@ -181,26 +180,5 @@ theorem load_listing (s : St) (prog : List Instr) (hlen : prog.length ≤ 4096) 
   · intro t ht
     obtain ⟨i, hi, rfl⟩ := List.mem_map.mp ht
     exact hok i hi
-
-/-! ### finding: a branch to `label+odd offset` prints a form that does not re-assemble -/
-
-/-- The instruction object built for `beq x0, x0, l+0x1` at address 0 with `l` at address 4. -/
-def oddBranch : Instr := { op := .beq, imm := 5 }
-
-theorem oddBranch_built :
-    instantiate [("l", 4)] 0 1 "beq x0, x0, l+0x1" (.btypeLabel "beq" 0 0 "l" 1) = .ok oddBranch := by
-  simp [instantiate, show Op.ofMnemonic "beq" = some .beq by decide, labelDisp, lookupLabel, mkInstr,
-    storedImm, Op.ty, oddBranch, sext13]
-
-theorem oddBranch_parse :
-    parseLine oddBranch.repr.toList = some { lbl := none, item := .grp (.rri "beq" 0 0 5) } := by
-  rw [repr_B oddBranch rfl]
-  exact parseLine_of_body .beq _ (mnEnd_reg _ _) _
-    (body_B .beq rfl 0 0 5 (by decide) (by decide) (small_natAbs 5 (by decide) (by decide)))
-
-theorem oddBranch_rebuild (ls : Labels) (k : Nat) (line : String) :
-    buildInstrs ls [(k, line, .grp (.rri "beq" 0 0 5))] 0
-      = .error (.parser "ParserOddImmediateException" k line) := by
-  simp [buildInstrs, instantiate, show Op.ofMnemonic "beq" = some .beq by decide, Op.ty]
 
 end ArchSim.Lemmas.C14
